@@ -3,6 +3,7 @@ package pipe
 import (
 	"bufio"
 	"context"
+	"crypto/tls"
 	"fmt"
 	"net"
 	"strconv"
@@ -119,6 +120,30 @@ type rawReader struct {
 	p      *rawConn
 	byChan map[int]int // RTP channel → media index
 	done   chan struct{}
+	resp   chan *base.Response // responses read by the loop while frames flow
+	nPlay  int
+}
+
+// request sends a request; once the read loop runs, the response comes through it (frames that
+// precede the response on the connection are recorded first).
+func (rr *rawReader) request(req *base.Request) (*base.Response, error) {
+	if rr.done == nil {
+		return rr.p.do(req)
+	}
+	if err := rr.p.write(req); err != nil {
+		return nil, err
+	}
+	select {
+	case res := <-rr.resp:
+		if res.StatusCode != base.StatusOK {
+			return res, fmt.Errorf("%s: status %d %s", req.Method, res.StatusCode, res.StatusMessage)
+		}
+		return res, nil
+	case <-rr.done:
+		return nil, fmt.Errorf("%s: connection closed", req.Method)
+	case <-time.After(20 * time.Second):
+		return nil, fmt.Errorf("%s: no response", req.Method)
+	}
 }
 
 func (rd *reader) connectRaw() error {
@@ -157,12 +182,29 @@ func (rr *rawReader) play() error {
 	if err != nil {
 		return err
 	}
-	if _, err = rr.p.do(&base.Request{Method: base.Play, URL: u}); err != nil {
+	req := &base.Request{Method: base.Play, URL: u}
+	rr.nPlay++
+	if rr.nPlay%2 == 0 { // every other PLAY carries a Range
+		req.Header = base.Header{"Range": headers.Range{Value: &headers.RangeNPT{Start: 0}}.Marshal()}
+	}
+	if _, err = rr.request(req); err != nil {
 		return err
 	}
-	rr.done = make(chan struct{})
-	go rr.loop()
+	if rr.done == nil {
+		rr.resp = make(chan *base.Response, 8)
+		rr.done = make(chan struct{})
+		go rr.loop()
+	}
 	return nil
+}
+
+func (rr *rawReader) pause() error {
+	u, err := base.ParseURL(fmt.Sprintf("rtsp://%s/s?r=%d", rr.rd.h.addr, rr.rd.idx))
+	if err != nil {
+		return err
+	}
+	_, err = rr.request(&base.Request{Method: base.Pause, URL: u})
+	return err
 }
 
 // loop: what a client's reader does - interleaved channel → media, payload type → format.
@@ -173,6 +215,13 @@ func (rr *rawReader) loop() {
 		what, err := rr.p.c.Read()
 		if err != nil {
 			return
+		}
+		if res, isRes := what.(*base.Response); isRes {
+			select {
+			case rr.resp <- res:
+			default:
+			}
+			continue
 		}
 		fr, ok := what.(*base.InterleavedFrame)
 		if !ok {
@@ -203,6 +252,48 @@ func (rr *rawReader) loop() {
 		}
 		rr.rd.record(m, pkt.PayloadType, &pkt)
 	}
+}
+
+// sidePlay: a PLAY for an existing (UDP) session sent on another connection from the same address -
+// how a reader that is already playing can be sent a second PLAY without touching the library client.
+func (rd *reader) sidePlay() error {
+	h := rd.h
+	rd.mu.Lock()
+	sid := rd.sessionID
+	rd.mu.Unlock()
+	if sid == "" {
+		return fmt.Errorf("no session id seen")
+	}
+	dial := (&net.Dialer{}).DialContext
+	scheme := "rtsp"
+	if h.sc.TLS {
+		scheme = "rtsps"
+		dial = func(ctx context.Context, network, address string) (net.Conn, error) {
+			nc, err := (&net.Dialer{}).DialContext(ctx, network, address)
+			if err != nil {
+				return nil, err
+			}
+			tc := tls.Client(nc, &tls.Config{InsecureSkipVerify: true})
+			if err = tc.HandshakeContext(ctx); err != nil {
+				nc.Close()
+				return nil, err
+			}
+			return tc, nil
+		}
+	}
+	p, err := dialRaw(h.addr, dial)
+	if err != nil {
+		return err
+	}
+	defer p.nc.Close()
+	p.session = sid
+	u, err := base.ParseURL(fmt.Sprintf("%s://%s/s?r=%d", scheme, h.addr, rd.idx))
+	if err != nil {
+		return err
+	}
+	_, err = p.do(&base.Request{Method: base.Play, URL: u,
+		Header: base.Header{"Range": headers.Range{Value: &headers.RangeNPT{Start: 0}}.Marshal()}})
+	return err
 }
 
 func (rr *rawReader) close() {
